@@ -106,15 +106,19 @@ def observe_lineage(case, session, F, builder=None):
         stages = getattr(b, "stages", None) or [left]
         segs = [frozen_ctes(left, True)]
         tnames = [segs[0][-1].alias_or_name]         # names of the FROM/JOIN tables so far
+        existing = {c.alias_or_name for c in segs[0]}  # names of all CTEs of the left expression
         for i, st in enumerate(case["steps"]):
             r = b.df(st["right"])
             segs.append(frozen_ctes(r, False))
-            # other_df.latest_cte_name as join() will see it (before _add_ctes_to_expression renames a duplicate)
+            # other_df.latest_cte_name as join() sees it: _add_ctes_to_expression renames the FIRST colliding CTE in place
+            # (visible through other_df), but works on transformed COPIES of the following ones -- their old names stay in other_df
             rname = segs[-1][-1].alias_or_name
-            out["stale"].append(tnames.index(rname) if rname in tnames else None)
+            earlier_collision = any(c.alias_or_name in existing for c in segs[-1][:-1])
+            out["stale"].append(tnames.index(rname) if (rname in tnames and earlier_collision) else None)
             if i + 1 < len(stages):
                 js = stages[i + 1].expression.args.get("joins") or []
                 tnames.append(js[-1].this.alias_or_name if len(js) > i else "?")
+                existing = {c.alias_or_name for c in stages[i + 1].expression.ctes}
             else:
                 tnames.append("?")
             cur = stages[i] if i < len(stages) else None
